@@ -55,15 +55,46 @@ def wrapText (width : Nat) (text : Str) : List Str :=
   let chunks := chunkRuns text
   wrapLoop width (chunks.length + 1) chunks []
 
+/-! ### the same on words
+
+The escaped text of a normalised value has single blanks only, so the chunks are its words
+alternating with one blank; on such a text `_wrap_chunks` amounts to: a word joins the current line
+when `len + 1 + |word|` still fits, the first word of a line is always taken (a word longer than
+the width gets a line of its own).  `NormalizedString.serialize` is modelled through this
+word-level form (compared with the real `textwrap.wrap` and with `wrapText` on every run). -/
+
+/-- the words of a text: maximal blank-free runs -/
+def wordsOf (t : Str) : List Str := (splitP (fun c => c = ' ') t).filter (fun x => !x.isEmpty)
+
+/-- fill one line: returns its words and the words left -/
+def fillWords (width : Nat) : List Str → List Str → Nat → List Str × List Str
+  | [], cur, _ => (cur.reverse, [])
+  | w :: rest, cur, len =>
+    if cur.isEmpty then fillWords width rest [w] w.length
+    else if len + 1 + w.length ≤ width then fillWords width rest (w :: cur) (len + 1 + w.length)
+    else (cur.reverse, w :: rest)
+
+def wrapWordsLoop (width : Nat) : Nat → List Str → List (List Str)
+  | 0, _ => []
+  | _, [] => []
+  | fuel + 1, w :: rest =>
+    match fillWords width (w :: rest) [] 0 with
+    | (line, rest') => line :: wrapWordsLoop width fuel rest'
+
+/-- the lines of `textwrap.wrap`, as groups of words -/
+def wrapWords (width : Nat) (ws : List Str) : List (List Str) := wrapWordsLoop width ws.length ws
+
 def decorateLines (prefixLen : Nat) : Nat → List Str → List Str
   | _, [] => []
   | i, [l] => [(if i = 0 then l else List.replicate prefixLen ' ' ++ l)]
   | i, l :: rest => ((if i = 0 then l else List.replicate prefixLen ' ' ++ l) ++ ['\\']) :: decorateLines prefixLen (i + 1) rest
 
+def nsWidth (name : Str) : Nat :=
+  max Gen.Registry.wrapMinWidth (Gen.Registry.wrapWidth - (name.length + Gen.Registry.wrapPrefixExtra))
+
 /-- `NormalizedString.serialize()` given the escaped text `Value.serialize` produced -/
 def nsSerialize (name : Str) (escaped : Str) : Str :=
   let prefixLen := name.length + Gen.Registry.wrapPrefixExtra
-  let width := max Gen.Registry.wrapMinWidth (Gen.Registry.wrapWidth - prefixLen)
-  joinChar '\n' (decorateLines prefixLen 0 (wrapText width escaped))
+  joinChar '\n' (decorateLines prefixLen 0 ((wrapWords (nsWidth name) (wordsOf escaped)).map (joinChar ' ')))
 
 end C15
